@@ -40,6 +40,9 @@ BIN = {"add": operator.add, "sub": operator.sub, "mul": operator.mul, "truediv":
        "lshift": operator.lshift, "rshift": operator.rshift, "and": operator.and_, "or": operator.or_,
        "xor": operator.xor, "lt": operator.lt, "le": operator.le, "eq": operator.eq, "ne": operator.ne,
        "gt": operator.gt, "ge": operator.ge}
+IBIN = {"add": operator.iadd, "sub": operator.isub, "mul": operator.imul, "truediv": operator.itruediv, "floordiv": operator.ifloordiv,
+        "mod": operator.imod, "pow": operator.ipow, "lshift": operator.ilshift, "rshift": operator.irshift, "and": operator.iand,
+        "or": operator.ior, "xor": operator.ixor}
 UN = {"neg": operator.neg, "pos": operator.pos, "abs": abs, "invert": operator.invert}
 INP = {"priv": PrivVal, "pub": PubVal, "privbool": PrivValBool, "pubbool": PubValBool, "privfxp": PrivValFxp, "pubfxp": PubValFxp}
 
@@ -272,11 +275,17 @@ def run_stmt(s, regs, ins, outs, st):
             out_val(v, outs)
             continue
         d = s[1]
-        if op == "input": v = INP[s[2]](ins[s[3]])
+        if op == "input":
+            iv = ins[s[3]]
+            if PYBOOL and iv in (0, 1) and not isinstance(iv, bool) and (s[3] + st["pc"]) % 2 == 0: iv = bool(iv)     # True / False instead of 1 / 0
+            v = INP[s[2]](iv)
         elif op == "const": v = s[2][1] if s[2][0] == "int" else float(s[2][1]) / float(2 ** s[2][2])
         elif op == "constval": v = ConstVal(s[2])
         elif op == "un": v = UN[s[2]](regs[s[3]])
-        elif op == "bin": v = BIN[s[2]](regs[s[3]], regs[s[4]])
+        elif op == "bin":
+            if len(s) > 5 and s[5] == "i" and s[2] in IBIN:
+                v = regs[s[3]]; v = IBIN[s[2]](v, regs[s[4]])          # t = a; t <op>= b   (the in-place operator path)
+            else: v = BIN[s[2]](regs[s[3]], regs[s[4]])
         elif op == "ite": v = br.if_then_else(regs[s[2]], regs[s[3]], regs[s[4]])
         elif op == "list": v = [regs[i] for i in s[2]]
         elif op == "index": v = regs[s[2]][s[3]]
@@ -339,7 +348,12 @@ def run_stmt(s, regs, ins, outs, st):
         for q in regs: st["coh"] += coherent(regs[q], R.P, st["w"])
 
 
+PYBOOL = False
+
+
 def run_case(case):
+    global PYBOOL
+    PYBOOL = bool(case.get("pybool"))
     cfg = case["cfg"]; p = cfg["p"]
     R.reset(p)
     if REAL: p = R.P
@@ -374,7 +388,10 @@ def run_case(case):
     unsat = []
     for i, (a, b, c) in enumerate(R.cons):
         ev = lambda l: sum(cf * w(k) for k, cf in items(l))
-        if (ev(a) * ev(b) - ev(c)) % p != 0: unsat.append(i)
+        try:
+            if (ev(a) * ev(b) - ev(c)) % p != 0: unsat.append(i)
+        except IndexError:
+            unsat.append(i)          # a constraint over a variable that was never allocated in this trace
     rec = {"id": case.get("id"), "exn": exn, "msg": st.get("msg"), "tb": st.get("tb"), "caught": st.get("caught", []), "nvars": len(R.kinds), "ncons": len(cons), "npub": len(R.pubs),
            "dig": [D.digest_vars(p, R.kinds, R.pubs, R.privs), D.digest_cons(p, cons), D.digest_outs(p, outs), D.digest_exn(p, exn, cur)],
            "unsat": unsat[:5], "incoherent": st["coh"][:5], "mutated": st["mutated"][:5], "floatbad": st.get("floatbad", False), "pc": st["pc"],
